@@ -1,4 +1,5 @@
 import CTV.Props.C09
+import CTV.Lemmas.When
 /-!
 # C09, `fieldInfo.check` at full strength: all widths 1…8
 
@@ -6,8 +7,14 @@ import CTV.Props.C09
 proof attempt finds the defect; this module is part of the check only once F2 is no longer listed as `known`
 (see driver/props/c09.py).  Until then `C09.check_sound` (all widths) and `C09.check_spec_partial` (widths ≤ 7)
 stand and the harness exhibits the refused 8-byte values.
+
+So that the default `lake build` succeeds on every tree, the module is wrapped in `#when` on "the regenerated kernel
+accepts the value 0 in an 8-byte field" (CTV/Lemmas/When.lean): on the unchanged tree it elaborates to nothing;
+whenever it is an obligation the orchestrator demands every theorem named below from `#print axioms`.
 -/
 set_option linter.unusedSimpArgs false
+
+#when (Tls.Info.check ⟨8, 0, 0, true⟩ 0) =>
 namespace C09Width8
 open Tls CTV
 
@@ -26,3 +33,4 @@ example : Info.check ⟨8, 0, 0, true⟩ (2^64 - 1) = true ∧ Info.check ⟨8, 
 example : enc (.struct (.plain "E" (.enum ⟨8, 0, 0, true⟩) .nil)) (.struct [.num 5]) = .ok [0,0,0,0,0,0,0,5] := by rfl
 
 end C09Width8
+#end_when
